@@ -219,16 +219,9 @@ EXPORT int _vsnwprintf_s_chk(wchar_t *restrict dest, rsize_t dmax,
 
     /* manual truncation */
     if (unlikely(ret >= (int)dmax)) {
-#ifdef SAFECLIB_STR_NULL_SLACK
-        /* oops, ret would have been written if dmax was ignored */
-        if ((rsize_t)ret > dmax) {
-            dest[dmax - 1] = L'\0';
-        } else {
-            memset(&dest[ret], 0, (dmax - ret) * sizeof(wchar_t));
-        }
-#else
+        /* ret characters would have been written if dmax was ignored: dmax - 1
+           of them are kept (ret == dmax leaves no room for the null either) */
         dest[dmax - 1] = L'\0';
-#endif
     } else if (unlikely(ret < 0)) {
         /* no truncation. some other error */
         char errstr[128] = "vsnwprintf_s: ";
